@@ -62,3 +62,131 @@ theorem fixed_rejects_nan (d : FloatDecl) (st : FloatState) :
 #print axioms float_accepts_inside
 #print axioms pinned_accepts_nan
 end GeoVerif
+
+namespace GeoVerif
+open PyFloat
+
+theorem beq'_fin_ne (v : Rat) (x : PyFloat) (h : x ≠ .fin v) : (PyFloat.fin v).beq' x = false := by
+  cases x with
+  | nan => rfl
+  | negInf => simp [beq']
+  | posInf => simp [beq']
+  | fin q =>
+    simp only [beq', decide_eq_false_iff_not]
+    intro hq; exact h (by rw [PyFloat.fin.injEq] at hq; rw [hq])
+
+theorem beq'_self_fin (v : Rat) : (PyFloat.fin v).beq' (.fin v) = true := by simp [beq']
+
+@[simp] theorem markProvided_value (b : Bool) (st : FloatState) : (markProvided b st).value = st.value := by
+  unfold markProvided; split <;> rfl
+
+/-- the message is built around the parameter's name -/
+theorem errMsg_names (v : PyFloat) (name : String) :
+    errMsg v name = ("Error: Parameter given (" ++ reprStr v ++ ") for ") ++ name ++ " outside of valid range." := rfl
+
+/-- finite value below Min or above Max (not the current value): rejected with the message naming the parameter -/
+theorem readFloat_rejects_outside (min max dflt : Option Rat) (name : String) (st : FloatState) (v : Rat)
+    (hcur : st.value ≠ .fin v) (hout : (∃ a, min = some a ∧ v < a) ∨ (∃ b, max = some b ∧ b < v)) :
+    readFloat min max dflt name st (.fin v) = .error (errMsg (.fin v) name) := by
+  unfold readFloat
+  rw [markProvided_value, beq'_fin_ne v st.value hcur]
+  simp only [Bool.false_eq_true, if_false]
+  rcases hout with ⟨a, ha, hva⟩ | ⟨b, hb, hbv⟩
+  · subst ha; simp [belowMin, lt, hva]
+  · subst hb; simp [aboveMax, lt, hbv]
+
+/-- value inside [Min, Max], bounds included (not the current value): accepted and stored exactly -/
+theorem readFloat_accepts_inside (min max dflt : Option Rat) (name : String) (st : FloatState) (v : Rat)
+    (hcur : st.value ≠ .fin v) (hmin : ∀ a, min = some a → a ≤ v) (hmax : ∀ b, max = some b → v ≤ b) :
+    readFloat min max dflt name st (.fin v) = .ok { value := .fin v, provided := true, valid := true } := by
+  unfold readFloat
+  rw [markProvided_value, beq'_fin_ne v st.value hcur]
+  have h1 : belowMin min (.fin v) = false := by
+    cases min with
+    | none => rfl
+    | some a => simp [belowMin, lt, not_lt.mpr (hmin a rfl)]
+  have h2 : aboveMax max (.fin v) = false := by
+    cases max with
+    | none => rfl
+    | some b => simp [aboveMax, lt, not_lt.mpr (hmax b rfl)]
+  simp [h1, h2, beq'_self_fin]
+
+/-- an accepted value is stored exactly as given, or the parameter's value is left as it was: never clamped, never defaulted -/
+theorem readFloat_no_alteration (min max dflt : Option Rat) (name : String) (st st' : FloatState) (v : PyFloat)
+    (h : readFloat min max dflt name st v = .ok st') : st'.value = v ∨ st'.value = st.value := by
+  unfold readFloat at h
+  split at h
+  · right
+    simp only [Except.ok.injEq] at h
+    rw [← h]; exact markProvided_value _ st
+  · split at h
+    · simp at h
+    · simp only [Except.ok.injEq] at h
+      left; rw [← h]
+
+/-- NaN is never accepted … -/
+theorem readFloat_rejects_nan (min max dflt : Option Rat) (name : String) (st : FloatState) :
+    readFloat min max dflt name st .nan = .error (errMsg .nan name) := by
+  unfold readFloat
+  have h0 : ∀ x, PyFloat.nan.beq' x = false := fun x => by cases x <;> rfl
+  simp [h0]
+
+/-- … whereas the comparison of the pinned tree let it through (defect F11) -/
+theorem readFloatOld_accepts_nan (min max dflt : Option Rat) (name : String) (st : FloatState) :
+    readFloatOld min max dflt name st .nan = .ok { value := .nan, provided := true, valid := true } := by
+  unfold readFloatOld
+  have h0 : ∀ x, PyFloat.nan.beq' x = false := fun x => by cases x <;> rfl
+  have h1 : belowMin min .nan = false := by cases min <;> rfl
+  have h2 : aboveMax max .nan = false := by cases max <;> rfl
+  simp [h0, h1, h2]
+
+/-- +∞ is rejected by every declaration with a finite Max -/
+theorem readFloat_rejects_posInf (min dflt : Option Rat) (b : Rat) (name : String) (st : FloatState) (hcur : st.value ≠ .posInf) :
+    readFloat min (some b) dflt name st .posInf = .error (errMsg .posInf name) := by
+  unfold readFloat
+  have h0 : PyFloat.posInf.beq' st.value = false := by
+    cases hv : st.value with
+    | nan => rfl
+    | negInf => simp [beq']
+    | posInf => exact absurd hv hcur
+    | fin q => simp [beq']
+  rw [markProvided_value, h0]
+  simp [aboveMax, lt]
+
+/-! ### integers / options -/
+
+theorem readInt_rejects_nonmember (allow : AllowSet) (dflt : Option Int) (name : String) (st : IntState) (v : Int)
+    (hd : dflt ≠ some v) (hc : v ≠ st.value) (hm : allow.contains v = false) :
+    ∃ msg, readInt allow dflt name st v = .error msg ∧
+      msg = ("Error: Parameter given (" ++ toString v ++ ") for ") ++ name ++ " outside of valid range." := by
+  refine ⟨_, ?_, rfl⟩
+  unfold readInt
+  simp [hd, hc, hm]
+
+theorem readInt_accepts_member (allow : AllowSet) (dflt : Option Int) (name : String) (st : IntState) (v : Int)
+    (hd : dflt ≠ some v) (hc : v ≠ st.value) (hm : allow.contains v = true) :
+    readInt allow dflt name st v = .ok { value := v, provided := true, valid := true } := by
+  unfold readInt
+  simp [hd, hc, hm]
+
+/-- the only way around the membership test is a value equal to the declared default (the documented "not provided"
+sentinel) or to the current value; either way the stored value does not change -/
+theorem readInt_no_alteration (allow : AllowSet) (dflt : Option Int) (name : String) (st st' : IntState) (v : Int)
+    (h : readInt allow dflt name st v = .ok st') : (st'.value = v ∧ allow.contains v = true) ∨ st' = st := by
+  unfold readInt at h
+  split at h
+  · right; simp only [Except.ok.injEq] at h; exact h.symm
+  · split at h
+    · right; simp only [Except.ok.injEq] at h; exact h.symm
+    · split at h
+      · simp at h
+      · rename_i hm
+        simp only [Except.ok.injEq] at h
+        left; rw [← h]
+        simp only [Bool.not_eq_true', Bool.not_eq_false] at hm
+        exact ⟨rfl, by simpa using hm⟩
+
+theorem allowSet_range_contains (lo hi v : Int) : (AllowSet.range lo hi).contains v = true ↔ lo ≤ v ∧ v ≤ hi := by
+  simp [AllowSet.contains]
+
+end GeoVerif
